@@ -328,7 +328,10 @@ func (m *monC15) Event(ev *hermes.VerifEvent, rc *RunCtx) {
 			for z := 0; z < g.N; z++ {
 				if old.W[z] != cur.W[z] || old.WMIN[z] != cur.WMIN[z] || old.PORGES[z] != cur.PORGES[z] || old.WNOR[z] != cur.WNOR[z] {
 					sig := "parameters_differ_at_same_groundwater_level"
-					if old.initial && !cur.initial {
+					// the recorded finding F18 concerns the field capacity the input module sets up for the initial level
+					// (groundwater supplements, saturation from the groundwater layer downwards): wilting point and pore
+					// volume of a layer never depend on the level, a difference there is something else
+					if old.initial && !cur.initial && old.WMIN[z] == cur.WMIN[z] && old.PORGES[z] == cur.PORGES[z] {
 						sig = "initial_gw_parameters_inconsistent"
 					}
 					rc.Violate("C15", sig, fmt.Sprintf("groundwater back at %.6g dm (as on %s) but layer %d parameters differ: FC %.6g/%.6g WP %.6g/%.6g PS %.6g/%.6g", g.GRW, DateOfZeit(old.zeit), z+1, old.W[z], cur.W[z], old.WMIN[z], cur.WMIN[z], old.PORGES[z], cur.PORGES[z]), ev.Zeit, z+1, nil)
